@@ -1,4 +1,250 @@
 package engine
 
-func runC15Label(c *Ctx)   {}
-func runC15Extract(c *Ctx) {}
+import (
+	"fmt"
+	"go/token"
+	"strings"
+
+	"golang.org/x/tools/go/ssa"
+)
+
+// runC15Label: label selection in the rule-text parser and in the clause constructor.
+func runC15Label(c *Ctx) {
+	p := c.P
+	c.Rule("C15-LABEL", "the parser prefixes the message with the Chinese label iff the CJK pattern matches it, else with the English label, separated by one space (both branches); the CJK pattern's language is [\\x{4e00}-\\x{9fa5}]; the clause constructor adds the English label only when its first extra argument carries no label", 3)
+	fn := p.Func("valid", "ParseValidNameKV")
+	if fn == nil {
+		c.Unk("C15-LABEL", "valid.ParseValidNameKV", "anchor", token.NoPos, "parser not found")
+		return
+	}
+	c.Funcs[fnName(fn)] = true
+	w := NewWalkEnv(p)
+	in := w.In
+	var bad []string
+	nMsg := 0
+	globalsUsed := map[string]bool{}
+	for _, t := range in.Explore(fn, symArgs(fn), 500) {
+		if t.Cut != "" || t.Panic != "" {
+			if t.Cut != "" {
+				c.Unk("C15-LABEL", fnName(fn), "paths", fn.Pos(), t.Cut)
+			}
+			continue
+		}
+		if t.Converged {
+			continue
+		}
+		rt, ok := t.Ret.(Tup)
+		if !ok || len(rt.E) != 3 {
+			continue
+		}
+		msg := rt.E[2]
+		if s, ok := isCstStr(msg); ok && s == "" {
+			continue
+		}
+		nMsg++
+		c.Sites++
+		sc, ok := msg.(StrCat)
+		if !ok || len(sc.Parts) != 2 {
+			bad = append(bad, "message is returned without an explanation label: "+shorten(keyOf(msg), 80))
+			continue
+		}
+		label, _ := isCstStr(sc.Parts[0])
+		raw := keyOf(sc.Parts[1])
+		// the CJK test decided on this path, applied to the raw message
+		zh := -1
+		for k, v := range t.PC {
+			if m := reMatchGlobal.FindStringSubmatch(k); m != nil {
+				globalsUsed[m[1]] = true
+				if m[2] == raw {
+					zh = v
+				} else {
+					bad = append(bad, "CJK test applied to something other than the extracted message")
+				}
+			}
+		}
+		switch {
+		case zh == 1 && label != "说明: ":
+			bad = append(bad, fmt.Sprintf("message containing CJK gets label %q (want \"说明: \")", label))
+		case zh == 0 && label != "explain: ":
+			bad = append(bad, fmt.Sprintf("message without CJK gets label %q (want \"explain: \")", label))
+		case zh == -1:
+			bad = append(bad, "label chosen without testing the message for CJK characters")
+		}
+	}
+	c.Check(len(bad) == 0 && nMsg >= 4, "C15-LABEL", fnName(fn), "label", fn.Pos(), fmt.Sprintf("%d message-carrying paths (both branches, both labels)", nMsg), uniqJoin(append(bad, fmt.Sprintf("%d message paths", nMsg)), 3))
+	// CJK pattern language
+	pats := patternGlobals(p, "valid")
+	for g := range globalsUsed {
+		pg, ok := pats[g]
+		if !ok {
+			c.Unk("C15-LABEL", "valid."+g, "language", token.NoPos, "CJK pattern not initialised from a constant")
+			continue
+		}
+		eq, wit, n, err := RxEquivalent(pg.Pat, `[\x{4e00}-\x{9fa5}]`)
+		c.Sites += n
+		switch {
+		case err != nil:
+			c.Unk("C15-LABEL", "valid."+g, "language", pg.Pos, err.Error())
+		case !eq:
+			c.Bad("C15-LABEL", "valid."+g, "language", pg.Pos, "CJK detection pattern differs from [\\x{4e00}-\\x{9fa5}]: "+wit)
+		default:
+			c.OK("C15-LABEL", "valid."+g, "language", pg.Pos, "≡ [\\x{4e00}-\\x{9fa5}]")
+		}
+	}
+	if len(globalsUsed) == 0 {
+		c.Unk("C15-LABEL", "valid.IncludeZhRe", "language", token.NoPos, "no CJK pattern consulted by the parser")
+	}
+	// constructor: English label only when the first extra argument has no label
+	ctor := p.Func("valid", "GetJoinValidErrStr")
+	if ctor == nil {
+		c.Unk("C15-LABEL", "valid.GetJoinValidErrStr", "anchor", token.NoPos, "clause constructor not found")
+		return
+	}
+	c.Funcs[fnName(ctor)] = true
+	w2 := NewWalkEnv(p)
+	in2 := w2.In
+	in2.EagerWiden = false
+	in2.WidenAfter = 6
+	delete(in2.Models, "valid.GetJoinValidErrStr")
+	delete(in2.NoInline, "valid.GetJoinValidErrStr")
+	in2.NoInline["valid.newStrBuf"] = true
+	in2.Models["(*strings.Builder).String"] = func(in *Interp, site ssa.Instruction, cc *ssa.CallCommon, a []AVal) (AVal, bool) {
+		return Sym{K: "text"}, true
+	}
+	arr := &Cell{ID: 800}
+	for i := 0; i < 2; i++ {
+		arr.Elems = append(arr.Elems, &Cell{ID: 801 + i, V: Sym{K: fmt.Sprintf("o%d", i)}})
+	}
+	var cbad []string
+	nc := 0
+	for _, t := range in2.Explore(ctor, []AVal{Sym{K: "objName"}, Sym{K: "fieldName"}, Sym{K: "inputVal"}, Slc{Arr: arr, Lo: 0, Hi: 2}}, 500) {
+		if t.Cut != "" || t.Panic != "" || t.Converged {
+			if t.Cut != "" || t.Panic != "" {
+				cbad = append(cbad, "not decided: "+t.Cut+t.Panic)
+			}
+			continue
+		}
+		nc++
+		hasEn, hasZh := -1, -1
+		for k, v := range t.PC {
+			if k == `strings.Contains(o0, "explain:")` {
+				hasEn = v
+			}
+			if k == `strings.Contains(o0, "说明:")` {
+				hasZh = v
+			}
+		}
+		wroteLabel := false
+		var last string
+		for _, e := range t.Events {
+			if e.Kind == "write" {
+				last = keyOf(e.Args[1])
+				if last == `"explain: "` {
+					wroteLabel = true
+				}
+			}
+		}
+		noLabel := hasEn == 0 && hasZh == 0
+		if wroteLabel != noLabel {
+			cbad = append(cbad, fmt.Sprintf("English label written=%v although first extra argument has label: en=%d zh=%d", wroteLabel, hasEn, hasZh))
+		}
+		if !strings.HasSuffix(last, `"; "`) && !strings.HasSuffix(last, `valid.ErrEndFlag`) {
+			cbad = append(cbad, "the clause does not end with the separator: last write is "+shorten(last, 60))
+		}
+	}
+	c.Check(len(cbad) == 0 && nc > 0, "C15-LABEL", fnName(ctor), "english-label", ctor.Pos(), fmt.Sprintf("%d paths", nc), uniqJoin(cbad, 3))
+}
+
+// runC15Extract: the explanation extractor.
+func runC15Extract(c *Ctx) {
+	p := c.P
+	c.Rule("C15-EXTRACT", "every slice expression of the extractor is proved in bounds, and no slice bound depends on a value carried from one clause to the next other than the input cursor", 2)
+	fn := p.Func("valid", "GetOnlyExplainErr")
+	if fn == nil {
+		c.Unk("C15-EXTRACT", "valid.GetOnlyExplainErr", "anchor", token.NoPos, "extractor not found")
+		return
+	}
+	c.Funcs[fnName(fn)] = true
+	sites := checkBounds(p, fn, validAxioms)
+	nSlices := 0
+	for i, s := range sites {
+		if s.What == "index" {
+			if _, isRange := s.Ins.(*ssa.IndexAddr); isRange {
+				// element of the range over the clauses
+			}
+		}
+		c.Sites++
+		nSlices++
+		disc := fmt.Sprintf("%s#%d", s.What, i+1)
+		if s.Proved {
+			c.OK("C15-EXTRACT", fnName(fn), disc, instrPos(s.Ins), "in bounds")
+		} else {
+			c.Bad("C15-EXTRACT", fnName(fn), disc, instrPos(s.Ins), "the extractor can fail: "+s.Why)
+		}
+	}
+	if nSlices == 0 {
+		c.Unk("C15-EXTRACT", fnName(fn), "slices", fn.Pos(), "no slice expression found in the extractor")
+	}
+	// clause independence: backward slice of every slice bound contains no loop-header phi
+	// except an induction variable (index / cursor that only moves forward by the data it consumed)
+	headers := map[*ssa.BasicBlock]bool{}
+	for _, l := range naturalLoops(fn) {
+		headers[l.Header] = true
+	}
+	var bad []string
+	for _, b := range fn.Blocks {
+		for _, ins := range b.Instrs {
+			sl, ok := ins.(*ssa.Slice)
+			if !ok {
+				continue
+			}
+			for _, bound := range []ssa.Value{sl.Low, sl.High} {
+				if bound == nil {
+					continue
+				}
+				seen := map[ssa.Value]bool{}
+				var walk func(v ssa.Value, depth int)
+				walk = func(v ssa.Value, depth int) {
+					if v == nil || seen[v] || depth > 12 {
+						return
+					}
+					seen[v] = true
+					switch x := v.(type) {
+					case *ssa.Phi:
+						if headers[x.Block()] {
+							// allowed: range index (phi + 1) or the input string cursor itself
+							if strings.Contains(x.Comment, "rangeindex") {
+								return
+							}
+							if _, isStr := x.Type().Underlying().(interface{ Info() int }); isStr {
+								return
+							}
+							if bt := x.Type().String(); bt == "string" {
+								return // the remaining input
+							}
+							bad = append(bad, fmt.Sprintf("slice bound at %s depends on %s, a value carried from one clause to the next", p.Pos(sl.Pos()), x.Comment))
+							return
+						}
+						for _, e := range x.Edges {
+							walk(e, depth+1)
+						}
+					case *ssa.BinOp:
+						walk(x.X, depth+1)
+						walk(x.Y, depth+1)
+					case *ssa.Call:
+						// results of pure searches depend on their arguments
+						for _, a := range x.Call.Args {
+							if _, isInt := a.Type().Underlying().(interface{}); isInt {
+								walk(a, depth+1)
+							}
+						}
+					case *ssa.Convert:
+						walk(x.X, depth+1)
+					}
+				}
+				walk(bound, 0)
+			}
+		}
+	}
+	c.Check(len(bad) == 0, "C15-EXTRACT", fnName(fn), "clause-independence", fn.Pos(), "no slice bound is carried across clauses", uniqJoin(bad, 3))
+}
